@@ -42,7 +42,7 @@ Proof.
   - assert (t = 0) by lia. subst t. cbn [orb]. change (lastZ [0]) with 0.
     destruct (d <? 0) eqn:E1; [lia|]. destruct (0 <? d) eqn:E2.
     + cbn [bind app pairs andb]. rewrite leaf_go_cons, leaf_go_nil, leaf_cut_out_ok by lia. cbn [bind].
-      do 3 f_equal. lia.
+      replace (Z.min d d - 0) with d by lia. reflexivity.
     + cbn [andb negb bind pairs]. reflexivity.
   - cbn [orb]. change (lastZ [0; t]) with t. destruct (0 <? t) eqn:E3; [|lia]. cbn [andb].
     destruct (t <? d) eqn:E1.
@@ -145,43 +145,47 @@ Inductive divided (t : Z) : ev -> ev -> Prop :=
     divided t (Seq m (A ++ ch :: B)) (Seq m (A ++ p0 :: p1 :: B))
 | div_sim m cs cs' : Forall2 (divided t) cs cs' -> divided t (Sim m cs) (Sim m cs').
 
+(* the structural form of Consecution._split_child_at, with the recursive call made explicit *)
+Lemma split_child_core_exact n cs t : (hmax cs <= n)%nat -> wfs cs -> 0 <= t -> t < dsum cs ->
+  exists cs' i, split_child_core (split_at_f n) cs t (starts cs) (dsum cs) = Ok (cs', i) /\
+    ((cs' = cs /\ nth_error (starts cs) i = Some t) \/
+     (exists A ch B p0 p1, cs = A ++ ch :: B /\ cs' = A ++ p0 :: p1 :: B /\ i = S (length A) /\
+         dsum A < t < dsum A + dur ch /\ split_at ch [t - dsum A] false = Ok [p0; p1] /\
+         inside_spec ch (t - dsum A) p0 p1)).
+Proof.
+  intros Hh Hwf Ht Hd. unfold split_child_core. rewrite check_time_ok by lia. cbn [bind]. unfold index_at_from.
+  destruct ((t <? dsum cs) && (0 <=? t)) eqn:E; [|lia].
+  destruct (bisect_starts cs 0 t Hwf ltac:(lia)) as (i & ch & Hb & Hn & Hr).
+  fold (starts cs) in Hb. rewrite Hb. cbn [Nat.pred].
+  assert (Hi : (i < length cs)%nat) by (apply nth_error_Some; congruence).
+  rewrite (nth_error_nth (starts cs) i 0 (starts_nth cs i Hi)).
+  destruct (t =? dsum (firstn i cs)) eqn:Et.
+  - exists cs, i. split; [reflexivity|]. left. split; auto. rewrite starts_nth by auto. f_equal. lia.
+  - rewrite Hn.
+    destruct (nth_error_split cs i Hn) as (A & B & HAB & HlenA). subst cs i.
+    rewrite firstn_length_app in *.
+    assert (Hhc : (height ch <= n)%nat).
+    { assert (height ch <= hmax (A ++ ch :: B))%nat by (apply hmax_In, in_elt). lia. }
+    assert (Hwc : wf ch) by (eapply wfs_In; [exact Hwf|apply in_elt]).
+    destruct (split_single_inside n ch (t - dsum A) false Hhc Hwc ltac:(lia)) as (p0 & p1 & Erec & Hins).
+    rewrite Erec. cbn [bind]. rewrite skipn_S_length_app.
+    eexists _, _. split; [reflexivity|]. right. exists A, ch, B, p0, p1.
+    split; [reflexivity|]. split; [reflexivity|]. split; [reflexivity|]. split; [lia|].
+    split; [rewrite <- (split_at_f_single_fuel n) by assumption; exact Erec|exact Hins].
+Qed.
+
 Theorem split_child_at_divided t : 0 <= t -> forall e e', wf e -> split_child_at e t = Ok e' -> divided t e e'.
 Proof.
   intros Ht. induction e as [d l|m cs IH|m cs IH] using ev_ind'; intros e' Hw H.
   - discriminate.
   - rewrite wf_seq in Hw. rewrite split_child_at_seq_unfold in H.
-    destruct (split_child_core_struct (split_at_f (hmax cs)) (hmax cs) (split_single_gen _) cs t (le_n _) Hw Ht) as [H1 H2].
-    destruct (Z_lt_le_dec t (dsum cs)) as [Hlt|Hle]; [|rewrite (H1 Hle) in H; discriminate].
-    destruct (H2 Hlt) as (cs' & i & E & Hst). rewrite E in H. cbn [bind] in H. inversion H; subst e'; clear H.
-    destruct Hst as [[-> Hn]|(A & ch & B & p0 & p1 & -> & -> & -> & Hr & Hins)].
+    destruct (Z_lt_le_dec t (dsum cs)) as [Hlt|Hle].
+    2:{ rewrite <- split_child_at_seq_unfold in H. rewrite split_child_at_seq_beyond in H by assumption. discriminate. }
+    destruct (split_child_core_exact (hmax cs) cs t (le_n _) Hw Ht Hlt) as (cs' & i & E & Hst).
+    rewrite E in H. cbn [bind] in H. inversion H; subst e'; clear H.
+    destruct Hst as [[-> Hn]|(A & ch & B & p0 & p1 & -> & -> & -> & Hr & Esp & Hins)].
     + apply div_seq_same; [assumption|]. eapply nth_error_In; eauto.
-    + apply div_seq_cut; [assumption| |assumption].
-      unfold split_child_core in E. rewrite check_time_ok in E by assumption. cbn [bind] in E.
-      (* recover the recursive call from the structural form *)
-      assert (Hh : (height ch <= hmax (A ++ ch :: B))%nat) by (apply hmax_In, in_elt).
-      assert (Hwc : wf ch) by (eapply wfs_In; [exact Hw|apply in_elt]).
-      destruct (split_single_inside (hmax (A ++ ch :: B)) ch (t - dsum A) false Hh Hwc ltac:(lia))
-        as (q0 & q1 & Eq & Hq).
-      rewrite <- (split_at_f_single_fuel (hmax (A ++ ch :: B))) by assumption.
-      rewrite Eq. clear Hq.
-      (* the same call is the one made by split_child_core *)
-      unfold index_at_from in E. destruct ((t <? dsum (A ++ ch :: B)) && (0 <=? t)) eqn:Eb; [|discriminate].
-      destruct (bisect_starts (A ++ ch :: B) 0 t Hw ltac:(lia)) as (k & ch' & Hb & Hn & Hrange).
-      fold (starts (A ++ ch :: B)) in Hb. rewrite Hb in E. cbn [Nat.pred] in E.
-      assert (Hk : (k < length (A ++ ch :: B))%nat) by (apply nth_error_Some; congruence).
-      rewrite (nth_error_nth (starts (A ++ ch :: B)) k 0 (starts_nth _ k Hk)) in E.
-      assert (k = length A).
-      { assert (HnA : nth_error (A ++ ch :: B) (length A) = Some ch) by apply nth_error_length_app.
-        pose proof (firstn_length_app A (ch :: B)) as HfA.
-        destruct (Nat.lt_trichotomy k (length A)) as [L|[L|L]]; [|exact L|]; exfalso.
-        - pose proof (dsum_firstn_S _ _ _ Hn). rewrite <- HfA in Hr at 1 2.
-          pose proof (Lookup.dsum_firstn_mono (A ++ ch :: B) (S k) (length A) Hw ltac:(lia)). lia.
-        - pose proof (dsum_firstn_S _ _ _ HnA). rewrite HfA in *.
-          pose proof (Lookup.dsum_firstn_mono (A ++ ch :: B) (S (length A)) k Hw ltac:(lia)). lia. }
-      subst k. rewrite nth_error_length_app in Hn. inversion Hn; subst ch'. rewrite firstn_length_app in *.
-      destruct (t =? dsum A) eqn:Et; [lia|]. rewrite nth_error_length_app in E. rewrite Eq in E. cbn [bind] in E.
-      rewrite skipn_S_length_app in E. inversion E as [E1].
-      apply app_inv_head in E1. inversion E1; subst. reflexivity.
+    + apply div_seq_cut; assumption.
   - rewrite wf_sim in Hw. rewrite split_child_at_sim_unfold in H.
     destruct (sca_sim t cs) as [r|k] eqn:E; [|discriminate]. cbn [bind] in H. inversion H; subst e'; clear H.
     apply div_sim. revert r E. induction cs as [|c rest IHr]; intros r E.
@@ -198,3 +202,218 @@ Proof.
         destruct (sca_sim t rest) as [r'|k] eqn:E'; [|discriminate]. cbn [bind] in E.
         inversion E; subst r. constructor; [apply Hc; auto|apply IHr; reflexivity].
 Qed.
+
+(* dividing changes only the nesting *)
+Theorem divided_same t : 0 <= t -> forall e e', wf e -> divided t e e' ->
+  wf e' /\ dur e' = dur e /\ forall x, at_ e' x = at_ e x.
+Proof.
+  intros Ht. induction e as [d l|m cs IH|m cs IH] using ev_ind'; intros e' Hw H.
+  - inversion H; subst. destruct (leaf_parts_sem d l t) as (P1 & P2 & P3 & _); try lia.
+    rewrite wf_seq, dur_seq. split; [assumption|]. split; [assumption|]. intros x. rewrite at_seq_eq. apply P3.
+  - rewrite wf_seq in Hw. inversion H as [| |? A ch B p0 p1 Hr Esp Hins|]; subst.
+    + split; [assumption|]. split; reflexivity.
+    + destruct (replace_parts A ch B p0 p1 (t - dsum A) Hw Hins ltac:(lia)) as (R1 & R2 & R3 & _).
+      rewrite wf_seq, !dur_seq. split; [assumption|]. split; [assumption|]. intros x. rewrite !at_seq_eq. apply R3.
+  - rewrite wf_sim in Hw. inversion H as [| | |? ? cs' HF]; subst. rewrite wf_sim, !dur_sim.
+    assert (G : wfs cs' /\ dmax cs' = dmax cs /\ forall x, at_sim x cs' = at_sim x cs).
+    { clear H. induction HF as [|c c' r r' Hcc HF IHF].
+      - split; [exact I|]. split; reflexivity.
+      - inversion IH as [|? ? Hc Hr]; subst. destruct Hw as [Wc Wr].
+        destruct (Hc c' Wc Hcc) as (C1 & C2 & C3). destruct (IHF Hr Wr) as (I1 & I2 & I3).
+        split; [exact (conj C1 I1)|]. split; [rewrite !dmax_cons; lia|].
+        intros x. rewrite !at_sim_cons, C3, I3. reflexivity. }
+    destruct G as (G1 & G2 & G3). split; [assumption|]. split; [assumption|].
+    intros x. rewrite !at_sim_eq, G3. reflexivity.
+Qed.
+
+Theorem split_child_at_same e t e' : wf e -> 0 <= t -> split_child_at e t = Ok e' ->
+  wf e' /\ dur e' = dur e /\ forall x, at_ e' x = at_ e x.
+Proof. intros Hw Ht H. apply (divided_same t Ht e e' Hw). apply split_child_at_divided; assumption. Qed.
+
+(* afterwards a child boundary exists at t in every voice, recursively through simultaneities;
+   every voice is a container (leaf voices were replaced by sequences).
+   The alternative `t = dsum cs` is needed only for a replaced leaf voice of length t:
+   split_child_at (Sim [Leaf 5]) 5 = Sim [Seq [Leaf 5]]  (see ex_boundary_end). *)
+Fixpoint has_boundary (t : Z) (e : ev) : Prop :=
+  match e with
+  | Leaf _ _ => False
+  | Seq _ cs => In t (starts cs) \/ t = dsum cs
+  | Sim _ cs => (fix go l := match l with [] => True | c :: r => has_boundary t c /\ go r end) cs
+  end.
+Definition have_boundary (t : Z) := fix go (l : list ev) : Prop :=
+  match l with [] => True | c :: r => has_boundary t c /\ go r end.
+Lemma has_boundary_sim t m cs : has_boundary t (Sim m cs) = have_boundary t cs. Proof. reflexivity. Qed.
+
+(* the strict form: a boundary strictly inside or at the start, never only at the end *)
+Fixpoint has_boundary_strict (t : Z) (e : ev) : Prop :=
+  match e with
+  | Leaf _ _ => False
+  | Seq _ cs => In t (starts cs)
+  | Sim _ cs => (fix go l := match l with [] => True | c :: r => has_boundary_strict t c /\ go r end) cs
+  end.
+Definition have_boundary_strict (t : Z) := fix go (l : list ev) : Prop :=
+  match l with [] => True | c :: r => has_boundary_strict t c /\ go r end.
+
+(* no leaf voice ends exactly at t *)
+Fixpoint no_leaf_end (t : Z) (e : ev) : Prop :=
+  match e with
+  | Leaf d _ => d <> t
+  | Seq _ _ => True
+  | Sim _ cs => (fix go l := match l with [] => True | c :: r => no_leaf_end t c /\ go r end) cs
+  end.
+Definition no_leaf_ends (t : Z) := fix go (l : list ev) : Prop :=
+  match l with [] => True | c :: r => no_leaf_end t c /\ go r end.
+
+Lemma starts_app_in t A p0 p1 B : dur p0 = t - dsum A -> In t (starts (A ++ p0 :: p1 :: B)).
+Proof.
+  intros H. unfold starts. rewrite starts_from_app. apply in_or_app. right. cbn [starts_from]. right. left. lia.
+Qed.
+
+Theorem divided_boundary t : 0 <= t -> forall e e', wf e -> divided t e e' ->
+  has_boundary t e' /\ (no_leaf_end t e -> has_boundary_strict t e').
+Proof.
+  intros Ht. induction e as [d l|m cs IH|m cs IH] using ev_ind'; intros e' Hw H.
+  - inversion H; subst. destruct (leaf_parts_sem d l t) as (_ & P2 & _ & P4); try lia.
+    split; [simpl; rewrite P2; exact P4|]. simpl. intros Hne. destruct P4 as [P4|P4]; [exact P4|congruence].
+  - inversion H as [| |? A ch B p0 p1 Hr Esp Hins|]; subst.
+    + split; [left; assumption|intros _; assumption].
+    + destruct Hins as (D0 & _). pose proof (starts_app_in t A p0 p1 B D0). split; [left; assumption|intros _; assumption].
+  - rewrite wf_sim in Hw. inversion H as [| | |? ? cs' HF]; subst. clear H.
+    change (have_boundary t cs' /\ (no_leaf_ends t cs -> have_boundary_strict t cs')).
+    induction HF as [|c c' r r' Hcc HF IHF]; [split; [exact I|intros _; exact I]|].
+    inversion IH as [|? ? Hc Hr]; subst. destruct Hw as [Wc Wr].
+    destruct (Hc c' Wc Hcc) as [C1 C2]. destruct (IHF Hr Wr) as [I1 I2].
+    split; [exact (conj C1 I1)|]. intros [N1 N2]. exact (conj (C2 N1) (I2 N2)).
+Qed.
+
+Theorem split_child_at_boundary e t e' : wf e -> 0 <= t -> split_child_at e t = Ok e' ->
+  has_boundary t e' /\ (no_leaf_end t e -> has_boundary_strict t e').
+Proof. intros Hw Ht H. apply (divided_boundary t Ht e e' Hw). apply split_child_at_divided; assumption. Qed.
+
+(* ------------------------------------------------------------ 3. failure on a simultaneity *)
+(* a sequence voice that has ended at t *)
+Theorem split_child_at_sim_short_voice m m' cs r t : wfs cs -> dsum cs <= t ->
+  split_child_at (Sim m (Seq m' cs :: r)) t = Err ESplitUnavailableChild.
+Proof.
+  intros Hw Ht. rewrite split_child_at_sim_unfold, sca_sim_cons, split_child_at_seq_beyond by assumption. reflexivity.
+Qed.
+(* a leaf voice shorter than t *)
+Theorem split_child_at_sim_short_leaf m d l r t : 0 <= t -> d < t ->
+  split_child_at (Sim m (Leaf d l :: r)) t = Err ESplitError.
+Proof.
+  intros Ht Hd. rewrite split_child_at_sim_unfold, sca_sim_cons.
+  assert (leaf_split d l [t] false = Err ESplitError) as ->; [|reflexivity].
+  rewrite leaf_split_unfold by congruence. rewrite sortZ_single. cbv zeta. cbn [hd].
+  rewrite check_time_ok by lia. cbn [bind memZ].
+  destruct (0 =? t) eqn:E0; cbn [orb].
+  - assert (t = 0) by lia. subst t. change (lastZ [0]) with 0.
+    destruct (0 <? d) eqn:E1; [lia|]. destruct (d <? 0) eqn:E2; [reflexivity|lia].
+  - change (lastZ [0; t]) with t. destruct (t <? d) eqn:E1; [lia|]. destruct (d <? t) eqn:E2; [reflexivity|lia].
+Qed.
+(* the same behind voices that can be divided *)
+Lemma sca_sim_app t a b : sca_sim t (a ++ b) = (a' <- sca_sim t a ; b' <- sca_sim t b ; Ok (a' ++ b')).
+Proof.
+  induction a as [|c a IH]; simpl app.
+  - rewrite sca_sim_nil. cbn [bind]. destruct (sca_sim t b); reflexivity.
+  - rewrite !sca_sim_cons, IH. destruct c as [d l|m cs|m cs].
+    + destruct (leaf_split d l [t] false); [|reflexivity]. cbn [bind].
+      destruct (sca_sim t a); [|reflexivity]. cbn [bind]. destruct (sca_sim t b); reflexivity.
+    + destruct (split_child_at (Seq m cs) t); [|reflexivity]. cbn [bind].
+      destruct (sca_sim t a); [|reflexivity]. cbn [bind]. destruct (sca_sim t b); reflexivity.
+    + destruct (split_child_at (Sim m cs) t); [|reflexivity]. cbn [bind].
+      destruct (sca_sim t a); [|reflexivity]. cbn [bind]. destruct (sca_sim t b); reflexivity.
+Qed.
+Theorem split_child_at_sim_short_voice_later m a a' m' cs r t : wfs cs -> dsum cs <= t ->
+  split_child_at (Sim m a) t = Ok a' ->
+  split_child_at (Sim m (a ++ Seq m' cs :: r)) t = Err ESplitUnavailableChild.
+Proof.
+  intros Hw Ht H. rewrite split_child_at_sim_unfold in *. rewrite sca_sim_app.
+  destruct (sca_sim t a); [|discriminate]. cbn [bind].
+  rewrite sca_sim_cons, split_child_at_seq_beyond by assumption. reflexivity.
+Qed.
+
+(* when it succeeds: every sequence voice is still running at t and no leaf voice is shorter than t *)
+Fixpoint splittable (t : Z) (e : ev) : Prop :=
+  match e with
+  | Leaf d _ => t <= d
+  | Seq _ cs => t < dsum cs
+  | Sim _ cs => (fix go l := match l with [] => True | c :: r => splittable t c /\ go r end) cs
+  end.
+Definition splittables (t : Z) := fix go (l : list ev) : Prop :=
+  match l with [] => True | c :: r => splittable t c /\ go r end.
+
+Theorem split_child_at_ok_iff t : 0 <= t -> forall e, wf e -> is_leaf e = false ->
+  ((exists e', split_child_at e t = Ok e') <-> splittable t e).
+Proof.
+  intros Ht. induction e as [d l|m cs IH|m cs IH] using ev_ind'; intros Hw Hl; [discriminate| |].
+  - rewrite wf_seq in Hw. change (splittable t (Seq m cs)) with (t < dsum cs). split.
+    + intros [e' H]. destruct (Z_lt_le_dec t (dsum cs)) as [Hlt|Hle]; [assumption|].
+      rewrite split_child_at_seq_beyond in H by assumption. discriminate.
+    + intros Hlt. destruct (split_child_at_seq m cs t Hw ltac:(lia)) as (cs' & E & _). eauto.
+  - rewrite wf_sim in Hw. change (splittable t (Sim m cs)) with (splittables t cs).
+    assert (G : (exists r, sca_sim t cs = Ok r) <-> splittables t cs).
+    { clear Hl. induction cs as [|c r IHr]; [split; [intros _; exact I|intros _; exists []; reflexivity]|].
+      inversion IH as [|? ? Hc Hr]; subst. destruct Hw as [Wc Wr]. specialize (IHr Hr Wr).
+      rewrite sca_sim_cons. change (splittables t (c :: r)) with (splittable t c /\ splittables t r).
+      destruct c as [d l|m' cs'|m' cs'].
+      - simpl in Wc. rewrite leaf_split_voice by assumption. simpl splittable. destruct (d <? t) eqn:E.
+        + split; [intros [r' H]; discriminate|intros [H _]; lia].
+        + cbn [bind]. rewrite <- IHr. split.
+          * intros [r' H]. destruct (sca_sim t r); [|discriminate]. split; [lia|eauto].
+          * intros [_ [r' ->]]. cbn [bind]. eauto.
+      - rewrite <- (Hc Wc eq_refl), <- IHr. split.
+        + intros [r' H]. destruct (split_child_at (Seq m' cs') t); [|discriminate]. cbn [bind] in H.
+          destruct (sca_sim t r); [|discriminate]. eauto.
+        + intros [[c' ->] [r' ->]]. cbn [bind]. eauto.
+      - rewrite <- (Hc Wc eq_refl), <- IHr. split.
+        + intros [r' H]. destruct (split_child_at (Sim m' cs') t); [|discriminate]. cbn [bind] in H.
+          destruct (sca_sim t r); [|discriminate]. eauto.
+        + intros [[c' ->] [r' ->]]. cbn [bind]. eauto. }
+    rewrite <- G, split_child_at_sim_unfold. split.
+    + intros [e' H]. destruct (sca_sim t cs); [eauto|discriminate].
+    + intros [r ->]. cbn [bind]. eauto.
+Qed.
+
+(* ------------------------------------------------------------ examples *)
+Definition ex_sim : ev :=
+  Sim meta0 [Leaf 5 1; Seq meta0 [Leaf 2 2; Leaf 4 3]; Sim meta0 [Leaf 4 1; Seq meta0 [Leaf 3 1; Leaf 3 1]]].
+Example ex_sim_wf : wf ex_sim /\ 0 <= 3.
+Proof. split; [apply wfb_wf; vm_compute; reflexivity|lia]. Qed.
+Example ex_divide_3 : split_child_at ex_sim 3 =
+  Ok (Sim meta0 [Seq meta0 [Leaf 3 1; Leaf 2 1]; Seq meta0 [Leaf 2 2; Leaf 1 3; Leaf 3 3];
+                 Sim meta0 [Seq meta0 [Leaf 3 1; Leaf 1 1]; Seq meta0 [Leaf 3 1; Leaf 3 1]]]).
+Proof. vm_compute. reflexivity. Qed.
+Example ex_divide_seq : split_child_at (Seq meta0 [Leaf 2 1; ex_sim; Leaf 1 9]) 5 =
+  Ok (Seq meta0 [Leaf 2 1;
+        Sim meta0 [Leaf 3 1; Seq meta0 [Leaf 2 2; Leaf 1 3]; Sim meta0 [Leaf 3 1; Seq meta0 [Leaf 3 1]]];
+        Sim meta0 [Leaf 2 1; Seq meta0 [Leaf 3 3]; Sim meta0 [Leaf 1 1; Seq meta0 [Leaf 3 1]]];
+        Leaf 1 9]).
+Proof. vm_compute. reflexivity. Qed.
+Example ex_leaf_voice : leaf_split 5 1 [3] false = Ok [Leaf 3 1; Leaf 2 1] /\ leaf_split 5 1 [5] false = Ok [Leaf 5 1] /\
+  leaf_split 5 1 [0] false = Ok [Leaf 5 1] /\ leaf_split 0 1 [0] false = Ok [] /\ leaf_split 5 1 [6] false = Err ESplitError.
+Proof. vm_compute. repeat split. Qed.
+(* the boundary may be the end of a replaced leaf voice *)
+Example ex_boundary_end : split_child_at (Sim meta0 [Leaf 5 1; Seq meta0 [Leaf 2 2; Leaf 4 3]]) 5 =
+  Ok (Sim meta0 [Seq meta0 [Leaf 5 1]; Seq meta0 [Leaf 2 2; Leaf 3 3; Leaf 1 3]]).
+Proof. vm_compute. reflexivity. Qed.
+Example ex_short_voices :
+  split_child_at (Sim meta0 [Leaf 5 1; Seq meta0 [Leaf 2 2; Leaf 3 3]]) 5 = Err ESplitUnavailableChild /\
+  split_child_at (Sim meta0 [Leaf 4 1; Seq meta0 [Leaf 2 2; Leaf 4 3]]) 5 = Err ESplitError /\
+  split_child_at (Sim meta0 [Seq meta0 []]) 0 = Err ESplitUnavailableChild.
+Proof. vm_compute. repeat split. Qed.
+Example ex_negative :
+  split_child_at (Sim meta0 [Leaf 5 1]) (-1) = Err EInvalidAbsoluteTime /\
+  split_child_at (Sim meta0 [Sim meta0 []; Seq meta0 []]) (-1) = Err EInvalidAbsoluteTime /\
+  split_child_at (Sim meta0 []) (-1) = Ok (Sim meta0 []) /\
+  split_child_at (Sim meta0 [Sim meta0 []]) (-1) = Ok (Sim meta0 [Sim meta0 []]).
+Proof. vm_compute. repeat split. Qed.
+
+Print Assumptions split_child_at_seq.
+Print Assumptions split_child_at_seq_beyond.
+Print Assumptions split_child_at_negative_sim.
+Print Assumptions split_child_at_divided.
+Print Assumptions split_child_at_same.
+Print Assumptions split_child_at_boundary.
+Print Assumptions split_child_at_sim_short_voice.
+Print Assumptions split_child_at_sim_short_leaf.
+Print Assumptions split_child_at_ok_iff.
